@@ -77,7 +77,7 @@ func (s *HierarchyFilter) buildToken(tokenStream analysis.TokenStream, soFar [][
 
 func HierarchyFilterConstructor(config map[string]interface{}, cache *registry.Cache) (analysis.TokenFilter, error) {
 	max := math.MaxInt64
-	maxVal, ok := config["max"].(float64)
+	maxVal, ok := configNumber(config["max"])
 	if ok {
 		max = int(maxVal)
 	}
@@ -101,4 +101,18 @@ func init() {
 	if err != nil {
 		panic(err)
 	}
+}
+
+// configNumber reads a numeric option that arrives as float64 from JSON (a
+// reopened index) or as an int from a mapping built through the Go API.
+func configNumber(v interface{}) (float64, bool) {
+	switch n := v.(type) {
+	case float64:
+		return n, true
+	case int:
+		return float64(n), true
+	case int64:
+		return float64(n), true
+	}
+	return 0, false
 }
